@@ -90,7 +90,7 @@ fn check_one(l: &mut Local, s: &str, o: usize, class: &str) {
 }
 
 pub fn run(col: &Collector, thorough: bool, seed: u64, jobs: usize) -> Value {
-    let max_len = if thorough { 8 } else { 7 };
+    let max_len = crate::max_len_override().unwrap_or(if thorough { 8 } else { 7 });
     let k = ALPHABET.len();
     vutil::run_workers(jobs, col, |w, n| {
         let mut l = Local::new();
@@ -112,7 +112,7 @@ pub fn run(col: &Collector, thorough: bool, seed: u64, jobs: usize) -> Value {
             }
         }
         // long random texts
-        let texts = if thorough { 10_000 } else { 400 };
+        let texts = if crate::max_len_override().is_some() { 2 } else if thorough { 10_000 } else { 400 };
         let mut rng = Rng::new(seed).derive(w as u64 + 100);
         let mut t = w;
         while t < texts {
